@@ -199,7 +199,7 @@ func PuttyPPK(info Info, data []byte) (Info, error) {
 	info.Attributes = append(info.Attributes, Attribute{"Encryption", string(k.Encryption)})
 	if k.Encryption != ppk.NoEncryption {
 		info.Attributes = append(info.Attributes,
-			Attribute{"KDF", fmt.Sprintf("%s (%d passes, %d MB, parallelism: %d)",
+			Attribute{"KDF", fmt.Sprintf("%s (%d passes, %d KiB, parallelism: %d)",
 				k.KeyDerivation, k.Argon2Passes, k.Argon2Memory, k.Argon2Parallelism)})
 	}
 
